@@ -62,7 +62,7 @@ NOTES = {
  "C15": "Absence of panics is never established by search; the evidence lists what was exercised per class and profile. Aborts (stack overflow) would kill the check process: reported as exit 2.",
  "C16": "Trusted base: the three-field port model written from the statement. Extra messages repeating the current value are allowed.",
  "C17": "Trusted base: the tick model; both readings of 'cleared by the compare match' (same tick / next tick) are accepted; clock selections 4-7 are not generated.",
- "C18": "Also runs the real release binary over TCP (-s -w): every message of generated programs (a quarter end with a burst of port messages) must arrive before the connection closes; failures of the TCP rig itself are inconclusive (exit 2 from 8 on), never a verdict. Trusted base: the reference interpreter of the line protocol (hex fields = non-empty strings of hex digits that fit). Thread interleavings of the socket workers are sampled by the OS; the one-batch schedule is deterministic.",
+ "C18": "Also runs the real release binary over TCP (-s -w): every message of generated programs (a quarter end with a burst of port messages) must arrive before the connection closes; failures of the TCP rig itself are inconclusive (exit 2 from 8 on), never a verdict: loopback ports are leased (kernel-arbitrated, outside the ephemeral range, no trial listener; DESIGN.md section 11), and an emulator process that could not bind its port never had a connection - the run is repeated on another port. Trusted base: the reference interpreter of the line protocol (hex fields = non-empty strings of hex digits that fit). Thread interleavings of the socket workers are sampled by the OS; the one-batch schedule is deterministic.",
  "C19": "Trusted base: the 10-line cost function transcribed from the statement. Complete enumeration of the per-area tuple space; other areas' settings sampled + one-bit flips; plus a transition walk (one register changes at a time, registers written through Bus::write) for history-dependent costs.",
 }
 
